@@ -39,6 +39,18 @@ The check
      only grow); all runs of a script must have one signature and the partition by real signature
      must be the partition by model signature.  A deviation is reported only after it has been
      reproduced in fresh interpreters with real histories.
+ (e) two more families with the machinery of (d) (plan_placed), for structure that could pass through
+     a hashed container on its way into the signature (the iteration order of a set / dict keyed by
+     Index or Mesh objects depends on their numbers and on the hash seed):
+     domains -- forms over THREE meshes (instruction `integ a m` = a * dx(m): the integration domain
+     is any mesh of the script) whose integrands carry constants / coefficients / geometric
+     quantities on the TWO meshes that are not the integration domain: the numbering of the domains
+     of a form (Form._analyze_domains: integration domains, then the others sorted by ufl_id);
+     contraction -- subscripts a[i], a[i, j] of vector / tensor valued expressions WITH free indices
+     (`grad`: grad(grad(a))[i, j] = a.dx(i, j)) and with one index twice (a[i, i]): the implicit
+     summation inside one subscript (GetItem of SigCounters.tla = Expr.__getitem__ +
+     create_slice_indices: one IndexSum per summed index, nested in the order of the subscript).
+     Histories: the placements of the Mesh / Index counter plus the plain shifts HASH_OFFSETS.
 
 A run = one program built in a FRESH interpreter (started with a given PYTHONHASHSEED) after a prior
 history: objects of the counted classes created and dropped by the harness, and the earlier steps of
@@ -58,6 +70,8 @@ the hash seed), and reported with a mechanism fingerprint, e.g.
   C12:operand-order-by-repr:Constant:combination:digit-boundary   (only several counters together)
   C12:raw-count-in-signature:Coefficient:Mesh
   C12:raw-index-count-in-signature:Zero-free-index
+  C12:domain-numbering-order:Mesh          (the same domain numbers, given to different domains)
+  C12:summation-index-order:Index          (the same tree up to the nesting of the index sums)
   C12:hashseed:<what>
 """
 
@@ -1078,7 +1092,7 @@ CROSS_BOUNDARIES = {"quick": [10, 100], "thorough": [10, 100, 1000]}
 # carries a domain on meshes that are not the integration domain, the integration domain being any
 # of the three (integ) -- the numbering of the domains of a form (Form._analyze_domains: integration
 # domains, then the others sorted by ufl_id) under placements of the Mesh counter
-FAM_DOMAINS = dict(mesh=3, const=1, coef=1, geo=1, prod=2, integ=1)
+FAM_DOMAINS = dict(mesh=3, const=1, coef=2, geo=1, prod=1, integ=1)
 FAM_DOMAINS_T = dict(mesh=3, const=1, coef=2, scoef=1, geo=1, comp=1, prod=2, integ=1)
 # index notation: subscripts a[i], a[i, j] of vector / tensor valued expressions WITH free indices
 # (grad(..)[i, j] = .dx(i, j)) and with an index twice (a[i, i]): implicit summation inside ONE
@@ -1225,10 +1239,16 @@ def compare_dumps(b, v):
         import re
 
         classes = sorted({c for c, _ in set(tb) ^ set(tv)})
-        erased = [sorted((c, re.sub(r"('Mesh', )\d+", r"\1#", x)) for c, x in t) for t in (tb, tv)]
-        numbers = [sorted(n for _, x in t for n in re.findall(r"'Mesh', (\d+)", x)) for t in (tb, tv)]
-        if erased[0] == erased[1] and numbers[0] == numbers[1]:
-            # the same terminals with the same set of domain numbers, given to different domains
+        import itertools
+
+        numbers = [sorted({n for _, x in t for n in re.findall(r"'Mesh', (\d+)", x)}) for t in (tb, tv)]
+
+        def renamed(t, pi):
+            return sorted((c, re.sub(r"('Mesh', )(\d+)", lambda m: m.group(1) + pi[m.group(2)], x)) for c, x in t)
+
+        if numbers[0] == numbers[1] and 2 <= len(numbers[0]) <= 5 and any(renamed(tb, dict(zip(numbers[0], p))) == sorted(tv) for p in itertools.permutations(numbers[0])):
+            # the same terminals up to a permutation of the domain numbers: the same set of numbers,
+            # given to the domains in a different order
             found.append(("domain-numbering-order", None))
         elif classes == ["MultiIndex"] and [_pkey(d, True) for _, d in b] == [_pkey(d, True) for _, d in v]:
             # the same tree up to the names of the indices, which are numbered in traversal order:
@@ -1426,7 +1446,9 @@ class Checker:
         self.direct = []
         todo = []
         for key in sorted(self.pending):
-            items = sorted(self.pending[key], key=lambda it: (len(prog_key(it[0].prog)), it[3]))
+            # the pairs of runs that differ in the history alone (hash seed 0, as in the fresh processes
+            # of the reproduction) first, then the smallest programs
+            items = sorted(self.pending[key], key=lambda it: (it[1].seed != "0" or it[2].seed != "0", len(prog_key(it[0].prog)), it[3]))
             progs = set()
             for case, base, run, nm, f in items:
                 if len(progs) >= per_mechanism or self.reported.get(key, 0) + len(progs) >= 2:
@@ -1480,7 +1502,7 @@ class Checker:
                 raise MachineryError(f"reproduction of {show_prog(prog)} failed ({what}): {[x.get('error') for x in res]}")
 
         need(res, "stage 1")
-        a0 = res[0]
+        a0, ref_chain = res[0], chains[0]  # the reference: a fresh process without history
         hit = next(((c, ch, x) for c, ch, x in zip(cands, chains[1:], res[1:]) if x["sigs"][nm] != a0["sigs"][nm]), None)
         by, responsible = "history", {K}
         if hit is None:
@@ -1490,17 +1512,29 @@ class Checker:
             res2 = first(chains2)
             need(res2, "stage 2")
             hit = next(((c, ch, x) for c, ch, x in zip(cands, chains2, res2) if x["sigs"][nm] != a0["sigs"][nm]), None)
+            if hit is None:
+                # stage 2b: the shift of a run under the hash seed of that run (orders of hashed
+                # containers depend on the numbers and on the seed together); the reference is the
+                # fresh process without history under the same seed
+                for (r, e, sd), ch, x in zip(cands, chains2, res2):
+                    if sd != "0" and any(r.eff.values()):
+                        ch2 = exact_chain(prog, r.eff, sd, diag=True)
+                        (x2,) = first([ch2])
+                        need([x2], "stage 2b")
+                        if x2["sigs"][nm] != x["sigs"][nm]:
+                            hit, a0, ref_chain = ((r, r.eff, sd), ch2, x2), x, ch
+                            break
             if hit is None and (run.res.get("sim") or base.res.get("sim")):
                 return None
             if hit is None:
                 fp = "C12:process-state:signature-depends-on-earlier-work-in-the-process"
                 return fp, f"{show_prog(prog)}: output {nm!r} has signatures {base.sig(nm)[:12]} / {run.sig(nm)[:12]} in processes that ran other steps before, {a0['sigs'][nm][:12]} in every fresh process with the same counters and hash seed", self._chain_replay(case, [base, run], fp, nm)
             (r, e, sd), _, _ = hit
-            if sd != "0":
+            if not any(e.values()):
                 by, responsible = "seed", set()
             else:
                 nz = [k for k in KINDS if e.get(k)]
-                res3 = first([exact_chain(prog, {k: e[k]}) for k in nz])
+                res3 = first([exact_chain(prog, {k: e[k]}, sd) for k in nz])
                 need(res3, "stage 3")
                 responsible = {k for k, x in zip(nz, res3) if x["sigs"][nm] != a0["sigs"][nm]}
         (r, e, sd), var_chain, var = hit
@@ -1509,7 +1543,7 @@ class Checker:
         fp = fingerprint_of(f, responsible, hashseed=by == "seed")
         what = (
             f"{show_prog(prog)}: signature of output {nm!r} is {a0['sigs'][nm][:12]} in a fresh process and {var['sigs'][nm][:12]} "
-            + (f"after the prior history {off_str(var['eff'])}" if by == "history" else f"with PYTHONHASHSEED={sd}")
+            + (f"after the prior history {off_str(var['eff'])}" + (f" (both with PYTHONHASHSEED={sd})" if sd != "0" else "") if by == "history" else f"with PYTHONHASHSEED={sd}")
             + (f"; counters that reproduce it alone: {sorted(responsible) or 'none (only the combination)'}" if by == "history" else "")
             + f"; mechanism: {f[0]}"
             + (f" {json.dumps(f[1])}" if f[1] else "")
@@ -1519,7 +1553,7 @@ class Checker:
             "program": prog,
             "fingerprint": fp,
             "output": nm,
-            "chains": [dict(chains[0], observe=0), dict(var_chain, observe=0)],
+            "chains": [dict(ref_chain, observe=0), dict(var_chain, observe=0)],
             "observed": [a0["sigs"][nm], var["sigs"][nm]],
         }
         return fp, what, rep
@@ -1531,13 +1565,15 @@ def prelim_key(finding, seed_only):
     return fingerprint_of(finding, {K} if K else set(), hashseed=seed_only)
 
 
-def _pkey(d, erase_zero):
+def _pkey(d, erase_zero, erase_index=True):
     """Positional rendering of a dumped node (numbers of free indices erased)."""
     if d[0] == "T":
         if d[1] == "Zero" and len(d) > 3 and not erase_zero:
             return "Zero:" + d[2]
+        if d[1] == "MultiIndex" and not erase_index:
+            return "MultiIndex:" + d[2]
         return _erase_zero(d)
-    return d[1] + "(" + ",".join(_pkey(o, erase_zero) for o in d[2]) + ")"
+    return d[1] + "(" + ",".join(_pkey(o, erase_zero, erase_index) for o in d[2]) + ")"
 
 
 def classify(nm, get_b, get_v):
@@ -1560,6 +1596,9 @@ def classify(nm, get_b, get_v):
         b, v = get_b(nm), get_v(nm)
         if [_pkey(d, True) for _, d in b] == [_pkey(d, True) for _, d in v] and [_pkey(d, False) for _, d in b] != [_pkey(d, False) for _, d in v]:
             finds = [("terminal-data", "Zero")]
+        elif [_pkey(d, True) for _, d in b] == [_pkey(d, True) for _, d in v] and [_pkey(d, True, False) for _, d in b] != [_pkey(d, True, False) for _, d in v]:
+            # the same tree and the same multiset of multi-indices, numbered differently in place
+            finds = [("summation-index-order", None)]
     return finds or [("unclassified", None)]
 
 
@@ -1914,16 +1953,16 @@ def _free_indices(script):
     return fi, summed
 
 
-def _vac_cross(by_script):
+def _vac_cross(by_script, fam):
     ops = {i["op"] for v in by_script.values() for i in v["script"]}
     multi = sum(1 for v in by_script.values() for o in v["offs"] if sum(1 for x in o if x) >= 2)
     if not multi or "scoef" not in ops or not any(len({i["a"] for i in v["script"] if i["op"] == "const"}) > 1 for v in by_script.values()):
         return f"behaviours with several shifted counters: {multi}, instructions {sorted(ops)}"
 
 
-def _vac_domains(by_script):
+def _vac_domains(by_script, fam):
     """needs forms whose integrand has terminals on TWO meshes that are not the integration domain,
-    integrated over the first, over another mesh (integ) and without integ"""
+    integrated over the first and over another mesh (integ) and, from 8 instructions on, without integ"""
     seen = set()
     for v in by_script.values():
         sc = v["script"]
@@ -1934,12 +1973,12 @@ def _vac_domains(by_script):
         if len(others) >= 2:
             seen.add("first" if dom == 1 and sc[-1]["op"] == "integ" else "implicit" if dom == 1 else "other")
             seen |= {i["op"] for i in sc if i["op"] in ("const", "coef", "geo") and i["a"] != dom}
-    want = {"first", "other", "implicit", "const", "coef", "geo"}
+    want = {"first", "other", "const", "coef", "geo"} | ({"implicit"} if fam.steps >= 8 else set())
     if not want <= seen:
         return f"no form with two domains besides the integration domain for {sorted(want - seen)}"
 
 
-def _vac_contract(by_script):
+def _vac_contract(by_script, fam):
     """needs a subscript that sums two indices at once, one that sums an index occurring twice, one
     that sums a free index of the subscripted expression, and a product summing two indices"""
     seen = set()
@@ -1956,13 +1995,21 @@ def _vac_contract(by_script):
         return f"missing {sorted(want - seen)}"
 
 
+# the order in which a hashed container (set / dict keyed by Index, Mesh, ...) yields objects depends
+# on their numbers in an irregular way: the families whose structure could pass through such a
+# container get a number of plain shifts next to the placements (a wrong order shows with
+# probability 1/2 per shift and container)
+HASH_OFFSETS = [1, 2, 3, 5, 8, 13, 21]
+
+
 class Placed:
     """A family of scripts that TLC enumerates together with PLACEMENT histories (a digit boundary
     inside the objects of every counted class in `kinds`); every behaviour is replayed on the real
     code (cross_chains / cross_judge)."""
 
-    def __init__(self, name, caps, steps, kinds, vacuous, *, need=None, min_placed=1, budget=2000, n_sim=1, n_real=4):
+    def __init__(self, name, caps, steps, kinds, vacuous, *, need=None, offsets=(), min_placed=1, budget=2000, n_sim=1, n_real=4):
         self.name, self.caps, self.steps, self.kinds, self.vacuous, self.need = name, caps, steps, kinds, vacuous, need
+        self.offsets = list(offsets)  # plain shifts next to the placements
         self.min_placed, self.budget, self.n_sim, self.n_real = min_placed, budget, n_sim, n_real
         self.emit = self.intended = self.state = None
 
@@ -1982,19 +2029,19 @@ def plan_placed(ctx, transcription, w, only=None):
     if ctx.tier == "quick":
         fams = [
             Placed("cross", FAM_CROSS, 6, ["Mesh", "Constant"], _vac_cross, min_placed=2, budget=2000, n_sim=1, n_real=4),
-            Placed("domains", FAM_DOMAINS, 8, ["Mesh"], _vac_domains, need={"mesh": 3}, budget=1000, n_sim=1, n_real=3),
-            Placed("contraction", FAM_CONTRACT, 8, ["Index"], _vac_contract, budget=1000, n_sim=1, n_real=3),
+            Placed("domains", FAM_DOMAINS, 7, ["Mesh"], _vac_domains, need={"mesh": 3}, offsets=HASH_OFFSETS, budget=1000, n_sim=2, n_real=3),
+            Placed("contraction", FAM_CONTRACT, 8, ["Index"], _vac_contract, offsets=HASH_OFFSETS, budget=1000, n_sim=2, n_real=3),
         ]
     else:
         fams = [
             Placed("cross", FAM_CROSS_T, 7, ["Mesh", "Constant", "Coefficient"], _vac_cross, min_placed=2, budget=20000, n_sim=6, n_real=60),
-            Placed("domains", FAM_DOMAINS_T, 8, ["Mesh", "Coefficient"], _vac_domains, need={"mesh": 3}, budget=8000, n_sim=3, n_real=24),
-            Placed("contraction", FAM_CONTRACT_T, 9, ["Index", "Coefficient"], _vac_contract, budget=8000, n_sim=3, n_real=24),
+            Placed("domains", FAM_DOMAINS_T, 8, ["Mesh"], _vac_domains, need={"mesh": 3}, offsets=HASH_OFFSETS, budget=6000, n_sim=3, n_real=12),
+            Placed("contraction", FAM_CONTRACT_T, 9, ["Index"], _vac_contract, offsets=HASH_OFFSETS, budget=6000, n_sim=3, n_real=12),
         ]
     combined = comparator == "numeric" and zerosig == "renumbered"
     inv = ["EmitInv", "TypeOK", "RunAgrees"] + (["SigInvariant"] if combined else [])
     for f in fams:
-        kw = dict(workers=w, offsets=[], boundaries=CROSS_BOUNDARIES[ctx.tier], bump_kinds=f.kinds, need=f.need)
+        kw = dict(workers=w, offsets=f.offsets, boundaries=CROSS_BOUNDARIES[ctx.tier], bump_kinds=f.kinds, need=f.need)
         f.emit = Job(f"emit/{f.name}-family", f.caps, comparator, zerosig, len(f.kinds), f.steps, emit=True, cmp_of=cmp_of, invariants=inv, **kw)
         f.intended = None if combined else Job(f"intended/{f.name}-family", f.caps, "numeric", "renumbered", len(f.kinds), f.steps, **kw)
     return [f for f in fams if only is None or f.name in only]
@@ -2027,7 +2074,7 @@ def cross_chains(ctx, fam, rng):
         by_script.setdefault(k, {"script": script, "offs": {}})["offs"][tuple(int(x) for x in d["off"])] = json.dumps(d["sig"], sort_keys=True)
     n_beh = sum(len(v["offs"]) for v in by_script.values())
     multi = sum(1 for v in by_script.values() for o in v["offs"] if sum(1 for x in o if x) >= 2)
-    why = fam.vacuous(by_script)
+    why = fam.vacuous(by_script, fam)
     if why:
         raise MachineryError(f"{job.label}: vacuous ({why})")
     ctx.cov[fam.cov_key] = {"scripts": len(by_script), "behaviours": n_beh, "behaviours_with_several_counters_placed": multi, "boundaries": list(job.boundaries), "counters_placed": job.bump_kinds}
@@ -2440,11 +2487,16 @@ def run(ctx, args):
         "cross family (constants on two meshes in every creation order, coefficients on a MeshSequence space): every TLC-enumerated placement of "
         "digit boundaries inside the objects of all counted classes at once is replayed with explicit numbering (ufl_id= / count= constructor "
         "arguments standing for the counters) and a sample with real histories, and compared with the model signature TLC printed for it; "
+        "the same for the domains family (forms over three meshes with terminals on the two meshes that are not the integration domain, Mesh "
+        "counter placed / shifted) and the contraction family (subscripts that sum one or two indices of expressions with free indices, grad, "
+        "Index counter placed / shifted); "
         "non-trivial = non-zero shift or hash seed != 0; distinct = (program, effective shift vector, hash seed)"
     )
     ctx.assume("creation order inside a program is the same in every run; only the starting values of the counters, the hash seed and the process differ")
     ctx.assume("prior histories create and drop objects of the counted classes through the public constructors (coefficients on a space without mesh, constants on a user-defined domain, so that each counter can be shifted independently) or are earlier steps of the same process; the effective shift is read back from the counters (itertools.count copy / Mesh._ufl_global_id, read-only)")
     ctx.assume("forms with terminals of a second mesh in the integrand are valid input (multi-domain forms)")
+    ctx.assume("a form whose integrand has terminals on two meshes other than its integration domain is valid input; a MeshSequence coefficient is integrated over one of its component meshes")
+    ctx.assume("index notation: a[i, j] / a.dx(i, j) = grad(grad(a))[i, j] where i, j are free indices of a, and a[i, i], are valid input (implicit summation); grad is applied to expressions with a P1 / P2 coefficient (not cellwise constant)")
     ctx.assume("SigCounters.tla models trees without shared sub-objects (cmp_expr as a function; its loop is bound by C29/Ordering.tla) and scalar/vector P1 spaces on triangles")
     ctx.assume("finite elements: vf/elements.py (adapted from the repository's test/utils.py)")
     ctx.assume("runs with explicit numbering pass the numbers the global counters would give to the public constructors (Mesh(ufl_id=), Constant/Coefficient/Index/Label(count=)) for every counted object of the script; a deviation found that way is reported only when fresh interpreters with the corresponding real histories reproduce it, otherwise it is counted and not judged")
